@@ -348,7 +348,9 @@ def _check(ctx, case):
     A_lazy = bw.calculate_structure_matrix(lazy=True)
     ctx.close(np.asarray(A_lazy.compute(scheduler="synchronous")), A, "lazy-eager:values", rtol=0,
               atol=(1e-5 if f32 else 1e-12) * scale, what="structure matrix")
-    sfa = bw._get_structure_factor_array(lazy=False)
+    sfa = bw.structure_factor
+    if not hasattr(sfa, "array"):
+        sfa = sfa.build(lazy=False)
     sfv = arr(sfa)
     A_ref = model_structure_matrix(np.asarray(sfa.hkl), sfv, hkl, bw.cell, energy, case["use_wave_eq"])
     off = ~np.eye(n, dtype=bool)
